@@ -18,7 +18,7 @@ from vlib.core import Stage, fail
 ID = "C02"
 MANIFEST = {
     "category": "exploration",
-    "text": "Generated-input search over strings: well-formed expressions rendered from ASTs (40%), near misses made by 1-3 character edits of them (40%) and arbitrary text incl. exotic code points (20%) go through parse_condition_expression_to_tree, the AHB parser, the resolver and is_valid_expression. A hand-written tokenizer + recursive-descent recogniser decides accept/reject for the condition parser (both directions); for the resolver, strict C09 forms must be accepted, anything returned must be fully resolved and acceptable to a lenient AHB recogniser whose condition parts pass the strict recogniser, and everything else must raise SyntaxError; no other exception type may escape anywhere. One slice is enumerated completely: every string of length <= 4 (thorough: <= 5) over the 12-character alphabet '[]()1PUB. MX' (22 621 / 271 453 strings) through all entry points. The thorough tier adds a coverage-guided atheris stage driving the same oracle. Near misses also include word-level edits: one run of letters replaced by a word that is nearly a modal mark (Moll, Kuss, Mus, Musss ...). Stage deep (plain enumeration, outside Hypothesis, which raises the recursion limit): well-formed expressions of five shapes nested 60-600 (thorough: 900) levels deep, by construction, through the condition parser (twice), the AHB parser and the resolver; nothing may raise. One known finding is excluded by construction and counted: RecursionError out of the resolver from 330 levels on (known_findings.json). Well-formed strings that use packages are additionally resolved with resolve_packages=True under drawn package tables (well-formed, malformed, missing bodies): malformed body => SyntaxError, missing => NotImplementedError, else a tree of Trees and Tokens only. A seventh of the near misses are the shortest expressions (one or two atoms, with or without indicator) with one or two characters inserted that Python's \\s / isspace accept but the grammars' whitespace does not (VT, FS-US, NEL, NBSP, U+1680, U+2000-200A, U+2028/9, U+202F, U+205F, U+3000).",
+    "text": "Generated-input search over strings: well-formed expressions rendered from ASTs (40%), near misses made by 1-3 character edits of them (40%) and arbitrary text incl. exotic code points (20%) go through parse_condition_expression_to_tree, the AHB parser, the resolver and is_valid_expression. A hand-written tokenizer + recursive-descent recogniser decides accept/reject for the condition parser (both directions); for the resolver, strict C09 forms must be accepted, anything returned must be fully resolved and acceptable to a lenient AHB recogniser whose condition parts pass the strict recogniser, and everything else must raise SyntaxError; no other exception type may escape anywhere. One slice is enumerated completely: every string of length <= 4 (thorough: <= 5) over the 12-character alphabet '[]()1PUB. MX' (22 621 / 271 453 strings) through all entry points. The thorough tier adds a coverage-guided atheris stage driving the same oracle. Near misses also include word-level edits: one run of letters replaced by a word that is nearly a modal mark (Moll, Kuss, Mus, Musss ...). Stage deep (plain enumeration, outside Hypothesis, which raises the recursion limit): well-formed expressions of five shapes nested 60-600 (thorough: 900) levels deep, by construction, through the condition parser (twice), the AHB parser and the resolver; nothing may raise. One known finding is excluded by construction and counted: RecursionError out of the resolver from 330 levels on (known_findings.json). Well-formed strings that use packages are additionally resolved with resolve_packages=True under drawn package tables (well-formed, malformed, missing bodies): malformed body => SyntaxError, missing => NotImplementedError, else a tree of Trees and Tokens only. A seventh of the near misses are the shortest expressions (one or two atoms, with or without indicator) with one or two characters inserted that Python's \\s / isspace accept but the grammars' whitespace does not (VT, FS-US, NEL, NBSP, U+1680, U+2000-200A, U+2028/9, U+202F, U+205F, U+3000). is_valid_expression is called with its parameters passed by name for every second string.",
     "note": "Trusted: the reference recogniser in vlib/ref.py (cross-validated against the parser on 10^5 strings with zero disagreements on the unchanged tree), Hypothesis, atheris. Two narrow unspecified zones where only the no-foreign-exception clause is checked: strings that are well-formed only if a repeatability may be written with non-ASCII decimal digits (the grammar's own \\d), and AHB strings containing U+017F / U+212A, which re.IGNORECASE folds onto the s / k of the modal marks. Keys and package keys must be ASCII integers. Process configuration by shard (vlib/sut.py; recorded in replay files): plain / parse caches preheated beyond their size / warnings attributed to ahbicht raised as errors / logging fully enabled with every record rendered; one event loop per process or a new one per call; five process time zones; the hash seed is the shard number; namesakes of ahbicht's marshmallow schema classes are registered. Every registry of evaluators / providers / resolvers that the harness builds (sut.configure) also holds one of each kind that names no EDIFACT format and no format version; these must never be asked.",
     "technique": "property-based testing / fuzzing of the parsers against an independent reference recogniser (differential, both directions)",
 }
@@ -171,7 +171,11 @@ def check(case):
 
     # (4) validity check: reports what the resolver rejects as (False, message), never raises for it
     if not res.ok:
-        verdict = sut.call(is_valid_expression, text, _CER.set)
+        # the two parameters are documented by name; every second call passes them by name
+        if len(text) % 2:
+            verdict = sut.call(is_valid_expression, expression_or_tree=text, content_evaluation_result_setter=_CER.set)
+        else:
+            verdict = sut.call(is_valid_expression, text, _CER.set)
         if not verdict.ok:
             fail("validity-raises", f"is_valid_expression raised {verdict!r} for the malformed {text!r}")
         value = verdict.value
